@@ -156,12 +156,15 @@ var reAnchor = regexp.MustCompile(`(: +|- +)[&*][A-Za-z_]`)
 
 // rootCause maps a violating file to a root-cause class where one is recognisable from the file itself;
 // "" keeps the detailed per-field signature.
-func rootCause(content string, lines []string, prs diags.PositionRanges) string {
+func rootCause(content string, lines []string, prs diags.PositionRanges, sig string) string {
 	if reAnchor.MatchString(content) || strings.Contains(content, "<<:") {
 		return "anchor-or-alias"
 	}
 	if strings.Contains(content, ": |") && strings.Contains(content, " groups:") {
 		return "nested-yaml-document"
+	}
+	if strings.Contains(sig, "style=block") {
+		return "" // the blank-line class is about flow (plain/quoted) scalars only
 	}
 	lr := prs.Lines()
 	for l := max(lr.First, 1); l < lr.Last && l <= len(lines); l++ {
@@ -184,7 +187,7 @@ func checkFile(content string, strict bool, cs *explore.Case, input map[string]a
 				prs = p
 			}
 		}
-		if rc := rootCause(content, lines, prs); rc != "" {
+		if rc := rootCause(content, lines, prs, v.Sig); rc != "" {
 			cs.Violate(rc, v.What+" ("+v.Sig+")", v.Detail)
 		} else {
 			cs.Viol = append(cs.Viol, v)
